@@ -81,6 +81,18 @@ func (r *c04) obs(res string, m omap.Map[int, int], id, k int) string {
 		strings.Join(its, " "), strings.Join(all, " "))
 }
 
+// noteSize records the operations that act on a map of 20 or more / 100 or more entries.
+func (r *c04) noteSize(op string, n int) {
+	switch op {
+	case "seek", "first", "last", "delete", "itnext", "itprev", "set":
+		if n >= 100 {
+			r.st.Note("len>=100:" + op)
+		} else if n >= 20 {
+			r.st.Note("len>=20:" + op)
+		}
+	}
+}
+
 func (r *c04) staleAll(id int) {
 	for _, it := range r.its {
 		if it.id == id {
@@ -152,6 +164,7 @@ func (r *c04) Exec(op []string) string {
 				break
 			}
 			was := it.it.IsValid()
+			r.noteSize(op[0], it.m.Len())
 			if op[0] == "itnext" {
 				it.it.Next()
 			} else {
@@ -183,6 +196,7 @@ func (r *c04) Exec(op []string) string {
 		return "r=nomap"
 	}
 	id := r.ids[reg]
+	r.noteSize(op[0], m.Len())
 	if len(r.ids) > 1 {
 		for other, oid := range r.ids {
 			if other != reg && oid == id {
@@ -239,15 +253,19 @@ func (r *c04) Exec(op []string) string {
 		default:
 			k = atoi(op[3])
 			it = m.Seek(k)
+			big := ""
+			if m.Len() >= 20 {
+				big = "len>=20:"
+			}
 			if !it.IsValid() {
-				r.st.Note("seek-past-the-end")
+				r.st.Note(big + "seek-past-the-end")
 			} else if c04cmp(r.mode)(it.Key(), k) != 0 {
-				r.st.Note("seek-absent-key")
+				r.st.Note(big + "seek-absent-key")
 				if f := m.First(); f.Key() == it.Key() {
-					r.st.Note("seek-below-min")
+					r.st.Note(big + "seek-below-min")
 				}
 			} else {
-				r.st.Note("seek-present-key")
+				r.st.Note(big + "seek-present-key")
 			}
 		}
 		r.its[i] = &c04it{it: it, m: m, id: id}
@@ -400,6 +418,39 @@ func genC04(g *G) {
 		x.emit("reset %s", x.mode)
 		x.mk(0, g.Chance(1, 12))
 		nops := 5 + g.Intn(maxOps)
+		// Bulk preamble (second audit §1 C04): without it the maps hold ≤ 12 entries.  One case in three
+		// works on a map of 20..200 (thorough: ..500) entries, filled in random, ascending, descending or
+		// zig-zag key order (the last three make the scapegoat tree under the map rebuild).
+		if c%3 == 0 && !x.zero[x.ids[0]] {
+			count := 20 + g.Intn(g.Scale(181, 481))
+			if g.Chance(1, 4) {
+				count = 20 + g.Intn(45)
+			}
+			x.span = 2*count + g.Intn(count)
+			step := 1
+			if x.mode == "div10" {
+				x.span *= 10
+				step = 10
+			}
+			order := g.Intn(4)
+			for j := 0; j < count; j++ {
+				switch order {
+				case 0:
+					x.set(0, g.Intn(x.span))
+				case 1:
+					x.set(0, step*(2*j+1))
+				case 2:
+					x.set(0, step*(2*(count-j)+1))
+				default:
+					if j%2 == 0 {
+						x.set(0, step*(j+1))
+					} else {
+						x.set(0, x.span-step*j)
+					}
+				}
+			}
+			nops = len(x.ops) + 10 + g.Intn(g.Scale(40, 120))
+		}
 		for len(x.ops) < nops {
 			reg := x.reg()
 			switch k := g.Intn(100); {
@@ -487,7 +538,12 @@ func genC04(g *G) {
 		reg := x.reg()
 		ks := append([]int(nil), x.keys[x.ids[reg]]...)
 		if len(ks) > 12 {
-			ks = ks[:12]
+			// the two ends and a random sample of the middle
+			pick := []int{ks[0], ks[1], ks[len(ks)-2], ks[len(ks)-1]}
+			for len(pick) < 12 {
+				pick = append(pick, ks[g.Intn(len(ks))])
+			}
+			ks = pick
 		}
 		for _, key := range ks {
 			x.emit("seek 0 %d %d", reg, key-1)
